@@ -22,7 +22,7 @@ func runC17(r *Run) {
 			}
 			w := walkVerifier(in, walkOpts{Wrapper: wr, Cap: capPlain, Field: true, PermGL: true, PermBN: true, NoShape: true})
 			if w.Panic != "" || w.Err != nil {
-				r.Infra("walk %s/%s failed: %s %v", in.Name, wr, w.Panic, w.Err)
+				walkFailed(r, in, wr, w)
 				continue
 			}
 			var pos []*leafInfo
